@@ -23,7 +23,7 @@ EXTENDS Naturals, Sequences, FiniteSets, SequencesExt, TLC, Json
 CONSTANTS MaxTokens, MaxNest,
           OnlyValid    \* TRUE: grow viable strings only (used with -simulate for long expressions)
 
-Idents   == {"a", "b"}          \* field names
+Idents   == {"a", "b", "type"}  \* field names; a field may itself be called "type" and then competes with the implicit key
 Types    == {"T", "U"}          \* type names (identifiers too)
 Scalars  == {"STRING", "INTEGER", "FLOAT"}
 Punct    == {"{", "}", ",", "=", ".", "[", "]"}
